@@ -9,7 +9,7 @@
    errors of UserNode::parse / EntityRightNode::parse are not modelled).  Of an authorisation
    row only (id, mdate, author) are kept (its name and the need_update write flag are not).
    Lists of the Rights model are newest-first.  State of /repo: after the fix commits 83dc3ea
-   (oldest-first export) and 85b1827 (prepare_new_auth).  No proofs here. *)
+   (oldest-first export), 85b1827 (prepare_new_auth) and cd32c02 (check_placed).  No proofs here. *)
 From DV Require Export Rights.
 
 Record unode := { un_id : uid; un_date : Z; un_author : key; un_key : key; un_enabled : bool }.
@@ -62,13 +62,29 @@ Fixpoint check_edges (cid : uid) (s_src s_dest : N) (ids : list uid) (es : list 
       else check_edges cid s_src s_dest ids tl
   end.
 
+(* check_placed (cd32c02): the rows of a list in order; an id may appear once (site 70) and must be the
+   destination of a reference of that list carrying the list's field name (site 71); the signer of
+   the reference is not looked at *)
+Fixpoint check_placed_from (seen : list uid) (es : list edge) (label : N) (ids : list uid) : pres unit :=
+  match ids with
+  | [] => POk tt
+  | i :: tl =>
+      if existsb (N.eqb i) seen then PErr (EInvalid 70)
+      else if negb (existsb (fun e => N.eqb (e_dest e) i && N.eqb (e_label e) label) es) then PErr (EInvalid 71)
+      else check_placed_from (i :: seen) es label tl
+  end.
+Definition check_placed (es : list edge) (label : N) (ids : list uid) : pres unit := check_placed_from [] es label ids.
+
 Definition check_auth (a : anode) : pres unit :=
   if negb (Nat.eqb (length (an_redges a)) (length (an_rnodes a))) then PErr (EInvalid 7)
   else do _ <- check_edges (an_id a) 8 9 (map rn_id (an_rnodes a)) (an_redges a) ;;
   if negb (Nat.eqb (length (an_uedges a)) (length (an_unodes a))) then PErr (EInvalid 10)
   else do _ <- check_edges (an_id a) 11 12 (map un_id (an_unodes a)) (an_uedges a) ;;
   if negb (Nat.eqb (length (an_aedges a)) (length (an_anodes a))) then PErr (EInvalid 7)     (* same message as site 7 *)
-  else check_edges (an_id a) 8 9 (map un_id (an_anodes a)) (an_aedges a).
+  else do _ <- check_edges (an_id a) 8 9 (map un_id (an_anodes a)) (an_aedges a) ;;
+  do _ <- check_placed (an_redges a) L_RIGHTS (map rn_id (an_rnodes a)) ;;
+  do _ <- check_placed (an_uedges a) L_USERS (map un_id (an_unodes a)) ;;
+  check_placed (an_aedges a) L_UADMIN (map un_id (an_anodes a)).
 
 Fixpoint check_auth_edges (cid : uid) (gs : list anode) (es : list edge) : pres unit :=
   match es with
@@ -84,8 +100,10 @@ Fixpoint check_auth_edges (cid : uid) (gs : list anode) (es : list edge) : pres 
 Definition check_consistency (n : roomnode) : pres unit :=
   if negb (Nat.eqb (length (rmn_aedges n)) (length (rmn_anodes n))) then PErr (EInvalid 1)
   else do _ <- check_edges (rmn_id n) 2 3 (map un_id (rmn_anodes n)) (rmn_aedges n) ;;
+  do _ <- check_placed (rmn_aedges n) L_ADMIN (map un_id (rmn_anodes n)) ;;
   if negb (Nat.eqb (length (rmn_gedges n)) (length (rmn_gnodes n))) then PErr (EInvalid 4)
-  else check_auth_edges (rmn_id n) (rmn_gnodes n) (rmn_gedges n).
+  else do _ <- check_auth_edges (rmn_id n) (rmn_gnodes n) (rmn_gedges n) ;;
+  check_placed (rmn_gedges n) L_AUTHS (map an_id (rmn_gnodes n)).
 
 (* ------------------------------------------------------------------ parse *)
 Definition user_of (n : unode) : user := {| u_key := un_key n; u_date := un_date n; u_enabled := un_enabled n |}.
